@@ -17,7 +17,7 @@ RULE = (
 )
 ASSUMPTIONS = [
     "real-valued parameters are covered on the finite catalogue + VERIF_SEED-indexed generic reals (cond<=1e3) only",
-    "sizes bounded: Dx,Dy<=3 (thorough 4), N<=3 (thorough 4)",
+    "sizes bounded as stated in coverage.bounds (quick: Dx,Dy<=3 plus 4x4, 5x5, 6x3 shards, N<=5; thorough: Dx,Dy,N<=5)",
 ]
 BOUNDS = {"quick": dict(D=[1, 2, 3], N=[1, 2, 3]), "thorough": dict(D=[1, 2, 3, 4, 5], N=[1, 2, 3, 4, 5])}
 BUDGET = {"quick": 600, "thorough": 3600}
